@@ -66,7 +66,7 @@ func c42() {
 	workers := r.Pick(8, 12)
 	rounds := r.Pick(20, 60) // per worker
 	base := r.Scratch()
-	hb := startHeartbeat()
+	hb := startHeartbeat(filepath.Join(base, "heartbeat"))
 	defer hb.close()
 	var wg sync.WaitGroup
 	for w := 0; w < workers; w++ {
@@ -130,12 +130,12 @@ func c42() {
 		wg.Add(1)
 		go func(i int) {
 			defer wg.Done()
-			c42SlowTransition(r, hb, i, filepath.Join(base, fmt.Sprintf("slow%d", i)))
+			c42SlowTransition(r, hb, i, filepath.Join(base, fmt.Sprintf("slow%d", i)), i%2 == 1)
 		}(i)
 	}
 	wg.Wait()
 	r.Note("max_heartbeat_gap_ms", hb.max().Milliseconds())
-	r.Assume("bounded-progress restatement: a change is 'noticed' if Poll returns within 10 s (2 polling intervals of 1 s plus slack) while the heartbeat control shows no scheduler gap >= 1 s; otherwise the case is inconclusive")
+	r.Assume("bounded-progress restatement: a change is 'noticed' if Poll returns within 10 s (2 polling intervals of 1 s plus slack) while the heartbeat control (a goroutine that also creates and removes a file in the scratch filesystem every 50 ms) shows no gap >= 1 s; otherwise the case is inconclusive")
 	r.Assume("before each round the harness waits until no poll signal arrived for 1.3 s, so that a returning Poll is attributable to the round's own change (a late stale signal can only mask a miss, never fake one)")
 	r.Assume("external edits that do not change the independent walker's view (e.g. chmod that leaves some executable bit set) are skipped: no notification is owed for them")
 	r.Finish("local endpoints with force-poll watching (1 s) and accelerated scans, rounds cycling through (a) transition then Scan at offsets 0..1.3 s compared with the independent walker, (b) external random edit at a random offset in the polling tick then Poll, (c) transition immediately reversed by the harness then Poll; distinct = (round kind, change kind, offset bucket, outcome)", 12)
@@ -300,8 +300,8 @@ func kindClass(kind string) string {
 	switch kind {
 	case "unknown-child", "modified-child", "missing-staged":
 		return "partial"
-	case "slow":
-		return "slow"
+	case "slow-bulk-removal", "slow-cross-device-copy":
+		return kind
 	}
 	return "complete"
 }
@@ -512,19 +512,48 @@ func (w *c42Worker) undo(a *c42Applied) bool {
 // c42SlowTransition makes one transition slow (removal of a directory with tens of thousands
 // of files) and starts it so that the poller's tick falls inside it; the Scan issued right
 // after the transition must equal the walker's view.
-func c42SlowTransition(r *vk.Run, hb *heartbeat, index int, dir string) {
-	const files = 10000
+//
+// Two ways of being slow: "bulk" removes a directory of 4000 files (the poller's scans during
+// it see a changing tree and may fail); "copy" creates one 64 MiB file in a root on tmpfs from
+// a staging root on ext4, i.e. through the cross-device copy into a temporary that scans
+// ignore, so the poller sees the unchanged pre-transition root until the final rename.
+func c42SlowTransition(r *vk.Run, hb *heartbeat, index int, dir string, bigCopy bool) {
+	const files = 4000
+	const copySize = 64 << 20
 	root := filepath.Join(dir, "beta")
+	src := filepath.Join(dir, "alpha")
+	defer os.RemoveAll(dir)
+	if bigCopy {
+		shm, err := shmDir(fmt.Sprintf("C42-slow-%d", index))
+		if err != nil {
+			r.Inconclusive("harness:shm")
+			return
+		}
+		defer os.RemoveAll(shm)
+		root = filepath.Join(shm, "beta")
+	}
 	bulk := filepath.Join(root, "bulk")
 	if err := os.MkdirAll(bulk, 0o755); err != nil {
 		r.Inconclusive("harness:materialize")
 		return
 	}
-	defer os.RemoveAll(dir)
-	for j := 0; j < files; j++ {
-		if err := os.WriteFile(filepath.Join(bulk, fmt.Sprintf("n%05d", j)), nil, 0o644); err != nil {
+	var bigDigest []byte
+	if bigCopy {
+		os.MkdirAll(src, 0o755)
+		data := make([]byte, copySize)
+		copy(data, fmt.Sprintf("big-%d-%d", index, time.Now().UnixNano()))
+		bigDigest = sha1Of(data)
+		if err := os.WriteFile(filepath.Join(src, "big"), data, 0o644); err != nil {
 			r.Inconclusive("harness:materialize")
 			return
+		}
+		data = nil
+	} else {
+		for j := 0; j < files; j++ {
+			if err := os.WriteFile(filepath.Join(bulk, fmt.Sprintf("n%05d", j)), nil, 0o644); err != nil {
+				r.Inconclusive("harness:materialize")
+				return
+			}
 		}
 	}
 	os.WriteFile(filepath.Join(root, "keep"), []byte("keep"), 0o644)
@@ -541,7 +570,7 @@ func c42SlowTransition(r *vk.Run, hb *heartbeat, index int, dir string) {
 		return
 	}
 	defer le.shutdown()
-	fmt.Printf("C42 slow transition %d: %d files\n", index, files)
+	fmt.Printf("C42 slow transition %d: big copy %v\n", index, bigCopy)
 	if !drain(le.ep) {
 		r.Inconclusive("never-quiet")
 		return
@@ -551,8 +580,23 @@ func c42SlowTransition(r *vk.Run, hb *heartbeat, index int, dir string) {
 		r.Inconclusive("round-setup")
 		return
 	}
+	change := &core.Change{Path: "bulk", Old: entryAt(snap.Content, "bulk")}
+	kind := "slow-bulk-removal"
+	if bigCopy {
+		kind = "slow-cross-device-copy"
+		change = &core.Change{Path: "big", New: &core.Entry{Kind: core.EntryKind_File, Digest: bigDigest}}
+		filtered, sigs, receiver, err := le.ep.Stage([]string{"big"}, [][]byte{bigDigest})
+		if err != nil || receiver == nil {
+			r.Inconclusive("round-setup")
+			return
+		}
+		if err := rsync.Transmit(src, filtered, sigs, receiver); err != nil {
+			r.Inconclusive("round-setup")
+			return
+		}
+	}
 	// Aim: start the transition a fraction of its expected duration before the next tick.
-	lead := []time.Duration{40, 100, 180, 20, 140, 70}[index%6] * time.Millisecond
+	lead := []time.Duration{40, 60, 180, 120, 100, 30, 140, 90}[index%8] * time.Millisecond
 	now := time.Now()
 	k := now.Sub(created)/time.Second + 1
 	nextTick := created.Add(k * time.Second)
@@ -561,9 +605,9 @@ func c42SlowTransition(r *vk.Run, hb *heartbeat, index int, dir string) {
 	}
 	time.Sleep(time.Until(nextTick.Add(-lead)))
 	start := time.Now()
-	results, problems, _, err := le.ep.Transition(context.Background(), []*core.Change{{Path: "bulk", Old: entryAt(snap.Content, "bulk")}})
+	results, problems, _, err := le.ep.Transition(context.Background(), []*core.Change{change})
 	end := time.Now()
-	if err != nil || len(problems) > 0 || results[0] != nil {
+	if applied, _ := strictDiff("", results[0], change.New); err != nil || len(problems) > 0 || !applied {
 		r.Inconclusive("round-setup")
 		fmt.Printf("C42 slow transition %d: not applied: %v %d problems\n", index, err, len(problems))
 		return
@@ -575,6 +619,6 @@ func c42SlowTransition(r *vk.Run, hb *heartbeat, index int, dir string) {
 	}
 	r.Count("slow_transition_ms_total", end.Sub(start).Milliseconds())
 	w := &c42Worker{r: r, id: 100 + index, root: root, le: le, hb: hb}
-	w.checkScan(snap, "slow", "bulk", 0)
-	r.Distinct(fmt.Sprintf("slow|tick-inside=%v", inside))
+	w.checkScan(snap, kind, change.Path, 0)
+	r.Distinct(fmt.Sprintf("%s|tick-inside=%v", kind, inside))
 }
